@@ -17,6 +17,10 @@ PUBLIC_MODULES = ['earth', 'error_model', 'filters', 'inertial_sensor', 'kalman'
                   'measurements', 'sim', 'strapdown', 'transform', 'util']
 
 
+class NPArray(list):
+    """A folded `np.array(<literal>)` constant."""
+
+
 class AnalysisError(Exception):
     """Anchor vanished / model cannot be built: exit code 2, never a verdict."""
 
@@ -409,7 +413,7 @@ class Repo:
         if isinstance(node, ast.Call):
             q = module.resolve(node.func)
             if q in ('numpy.array', 'numpy.asarray') and node.args:
-                return self.fold(node.args[0], module, cls, depth + 1)
+                return NPArray(self.fold(node.args[0], module, cls, depth + 1))
             raise ValueError('call')
         raise ValueError(type(node).__name__)
 
